@@ -62,7 +62,7 @@ theorem filesLog_append (a b : List TsmFile) : filesLog (a ++ b) = filesLog a ++
 
 theorem filesLog_nil : filesLog [] = [] := rfl
 
-theorem live_noTombs (d : Log) : TsmFile.live ⟨d, []⟩ = d := by
+theorem live_noTombs (d : Log) (g : Nat) : TsmFile.live ⟨d, [], g⟩ = d := by
   simp [TsmFile.live]
 
 theorem filesLog_single (f : TsmFile) : filesLog [f] = f.live := by simp [filesLog]
@@ -114,7 +114,7 @@ theorem get_filesLog_compact (fs : List TsmFile) (i j : Nat) (h : i ≤ j) (k : 
 /-- What the snapshot protocol maintains between its sub-steps. -/
 structure Inv (s : State) : Prop where
   idle_snap : s.phase = .idle → s.snap = []
-  written_tmp : s.phase = .written → s.snapTmp = some ⟨s.snap.canon, []⟩
+  written_tmp : s.phase = .written → ∃ g, s.snapTmp = some ⟨s.snap.canon, [], g⟩
   replaced_le : s.phase = .replaced →
     ∀ k t v, Log.get s.snap k t = some v → Log.get (filesLog s.files) k t = some v
   cleared_snap : s.phase = .cleared → s.snap = []
@@ -182,7 +182,8 @@ theorem abs_stepSnapStep {s : State} (h : Inv s) (k : Key) (t : Int) :
   · -- begun
     by_cases he : s.snap.isEmpty <;> simp only [he, if_true, Bool.false_eq_true, if_false, State.abs_eq]
   · -- written → replaced: the new file holds the snapshot store's content
-    simp only [State.abs_eq, h.written_tmp hp, Option.toList_some, filesLog_append, filesLog_single,
+    obtain ⟨g, hg⟩ := h.written_tmp hp
+    simp only [State.abs_eq, hg, Option.toList_some, filesLog_append, filesLog_single,
       live_noTombs, Log.get_append, Log.get_canon]
     cases Log.get s.hot k t <;> cases Log.get s.snap k t <;> simp
   · -- replaced → cleared: the snapshot store's content is in the files
@@ -203,7 +204,8 @@ theorem inv_stepSnapStep {s : State} (h : Inv s) : Inv (stepSnapStep s) := by
     · constructor <;> intro h' <;> simp at h' ⊢
   · constructor <;> intro h' <;> simp at h' ⊢
     intro k t v hv
-    rw [h.written_tmp hp]
+    obtain ⟨g, hg⟩ := h.written_tmp hp
+    rw [hg]
     simp only [Option.toList_some, filesLog_append, filesLog_single, live_noTombs, Log.get_append,
       Log.get_canon, hv]
     simp
@@ -285,6 +287,6 @@ theorem inv_compact {s : State} (h : Inv s) (i j : Nat) (hij : i ≤ j) :
 
 theorem validGroup_le {fs : List TsmFile} {i j : Nat} (h : validGroup fs i j = true) : i ≤ j := by
   simp only [validGroup, Bool.and_eq_true, decide_eq_true_eq] at h
-  exact h.1
+  exact h.1.1.1
 
 end Influx.Model.Engine
